@@ -71,6 +71,27 @@ def cases(seed, tier):
         c = grammar.schedule(rng, case, dv, n)
         c["variant"] = j
         yield c
+    # finalize_wrapper(pause_for_debug=True): the wrapped plan fails, the wrapper pauses for the user to look, and the
+    # user then resumes (clean-up runs, the error is raised), stops / aborts (clean-up runs) or halts (no clean-up)
+    motors0 = gen.names(specs, "motor", "pmotor")
+    if motors0:
+        m0 = motors0[0]
+        for j, decision in enumerate(rng.sample(["halt", "resume", "abort", "stop"], 2)):
+            g0 = pg.group()
+            prog3 = {
+                "form": rng.choice(["finalize_wrapper:gen", "finalize_wrapper:fn"]),
+                "pause_for_debug": True,
+                "body": [msg(S, "checkpoint"), msg(S, "set", m0, 3.0, group=g0), msg(S, "wait", None, group=g0), msg(S, "null")],
+                "final": [msg(S, "null"), msg(S, "sleep", None, 0.1), msg(S, "null")],
+            }
+            c = copy.deepcopy(case)
+            c["variant"] = f"pause-for-debug-then-{decision}"
+            c["prog"] = prog3
+            c["script"] = [{"do": "call", "plan": c["pre"] + [render(prog3, wrapper=True)] + c["post"], "main": True, "decisions": [{"do": decision}]}]
+            for d_ in c["devices"].values():
+                d_.pop("faults", None)
+            c["devices"][m0]["faults"] = {"set#0": {"kind": "status_fail", "exc": "RuntimeError", "delay": 0.1}}
+            yield c
     # two things pending at once: a status nobody waits for yet fails while a long message of the wrapped plan is in
     # flight, then a stop / abort arrives.  Whichever of the two the plan is told about, it is told once: the
     # cleanup that follows is not hit by the other one afterwards
@@ -108,9 +129,12 @@ def render(prog, wrapper):
             node["else"] = prog["else"]
         if prog.get("final") is not None:
             node["finally"] = prog["final"]
+        if prog.get("pause_for_debug"):
+            # finalize_wrapper(pause_for_debug=True): on an exception, pause first, then re-raise into the clean-up
+            node["handlers"] = [{"exc": "BaseException", "body": [{"op": "msg", "cmd": "pause", "kw": {"defer": False}, "site": "dbgpause"}], "reraise": True}]
         return node
     if form.startswith("finalize_wrapper"):
-        return {"op": "wrap", "name": "finalize_wrapper", "final": prog["final"], "final_form": form.split(":")[1], "body": prog["body"]}
+        return {"op": "wrap", "name": "finalize_wrapper", "final": prog["final"], "final_form": form.split(":")[1], "body": prog["body"], "pause_for_debug": bool(prog.get("pause_for_debug"))}
     if form == "finalize_decorator":
         return {"op": "wrap", "name": "finalize_decorator", "final": prog["final"], "body": prog["body"]}
     node = {"op": "wrap", "name": "contingency_wrapper", "body": prog["body"], "auto_raise": prog.get("auto_raise", True)}
@@ -128,6 +152,8 @@ def reference_case(case):
 
 def _keep(x):
     # the native rendering logs its own clause markers ('except', 'else', 'finally'); compare what both have
+    if x[0] == "plan" and x[2] == "dbgpause":
+        return False  # the reference's own debug pause is a DSL message (logged); the wrapper's is the library's
     return not (x[0] == "plan" and x[1] in ("except", "else", "finally", "finally_skipped_on_close", "wrap_ret"))
 
 
